@@ -167,6 +167,7 @@ class Block:
         if bad:
             raise Reject("%s: names that clash with the Coq side: %s" % (fn.name, bad))
         self.guards = []          # partial operations met while translating the current expression
+        self.guard_count = 0      # guards rendered so far in "defined" mode
         self.mode = "value"
         for n in ast.walk(fn):    # a return/raise ends its statement list (the executor drops whatever would follow it)
             for field in ("body", "orelse", "finalbody"):
@@ -310,6 +311,7 @@ class Block:
         """definedness rendering: the guard of this statement, then the rest"""
         if self.mode != "defined" or g == "true":
             return term
+        self.guard_count += 1
         return "(%s && (%s))" % (g, term)
 
     def fresh(self, base):
@@ -391,7 +393,11 @@ class Block:
             e_some = dict(env)
             e_some[name] = ("int", x)
             return "match %s with\n  | None => %s\n  | Some %s => %s\n  end" % (
-                v[1], self.on_type_error(stmts[0], env) if self.mode == "value" else "false", x, self.block(stmts, e_some, k, depth + 1))
+                v[1], self.on_type_error(stmts[0], env) if self.mode == "value" else self.undefined(), x, self.block(stmts, e_some, k, depth + 1))
+
+    def undefined(self):
+        self.guard_count += 1
+        return "false"
 
     def on_type_error(self, st, env):
         raise Reject("an optional int is used as an int: " + ast.unparse(st).splitlines()[0])
@@ -517,9 +523,11 @@ class Block:
         self.mode = "value"
         value = self.block(list(body), inner, lambda e: self.state_tuple(state, e, kinds), 0)
         self.mode = "defined"
+        saved_count, self.guard_count = self.guard_count, 0
         defined = self.block(list(body), inner, lambda e: "true", 0)
         self.mode = saved_mode
-        if re.sub(r"let [^\n]* in\n\s*", "", defined).strip() != "true":
+        n_guards, self.guard_count = self.guard_count, saved_count
+        if n_guards:
             raise Reject("partial operation inside a loop body (not supported): " + defined)
         return value
 
